@@ -207,6 +207,9 @@ def write_evidence(spec, prop, tier, seed, agg, wall, wall_batch, reported,
         samples=agg.samples[:3] or [dict(note="no non-trivial sample")],
         distinct_histories=len(agg.digests),
         runs_per_hour=int(agg.runs / max(wall_batch, 1e-6) * 3600),
+        seeds_per_hour=int(agg.runs / max(wall_batch, 1e-6) * 3600),
+        seeds_note="every run has its own seed sha256(VERIF_SEED/property/"
+                   "class/index); runs_per_hour == seeds_per_hour",
         oracle_comparisons=agg.checks,
         scheduled_steps=agg.steps,
         history_events=agg.events,
